@@ -67,6 +67,14 @@ def rand_pixels(rng, w, h, kind, ncol=16):
         return p
     if kind == "flatrows":
         return [[rng.randrange(ncol)] * w for _ in range(h)]
+    if kind in ("bottomflat", "topflat"):
+        # busy part and one big flat area (long runs at the very end / start of the compressed stream)
+        cut = h * 3 // 4 if kind == "bottomflat" else h // 4
+        p = []
+        for y in range(h):
+            flat = (y >= cut) if kind == "bottomflat" else (y < cut)
+            p.append([ncol - 1 if flat else rng.randrange(ncol) for _ in range(w)])
+        return p
     if kind == "vrepeat":
         base = [rng.randrange(ncol) for _ in range(w)]
         p = []
@@ -78,7 +86,7 @@ def rand_pixels(rng, w, h, kind, ncol=16):
     raise ValueError(kind)
 
 
-PIXEL_KINDS = ["random", "zero", "max", "alt", "altnib", "corners", "ramp", "stripes", "runs", "flatrows", "vrepeat"]
+PIXEL_KINDS = ["random", "zero", "max", "alt", "altnib", "corners", "ramp", "stripes", "runs", "flatrows", "vrepeat", "bottomflat", "topflat"]
 
 
 def rand_palette(rng, kind="random"):
